@@ -10,36 +10,7 @@ package core
 
 import (
 	"github.com/oneconcern/datamon/pkg/model"
-	"gopkg.in/yaml.v2"
 )
-
-const (
-	vB1 = "1c2PPkGSFwzlGuXIzGvRlK5XYy1"
-	vB2 = "1c2PPkGSFwzlGuXIzGvRlK5XYy2"
-	vB3 = "1c2PPkGSFwzlGuXIzGvRlK5XYy3"
-	vD1 = "1d2PPkGSFwzlGuXIzGvRlK5XYy1"
-	vD2 = "1d2PPkGSFwzlGuXIzGvRlK5XYy2"
-	vG1 = "1g2PPkGSFwzlGuXIzGvRlK5XYy1"
-)
-
-func vYaml(v interface{}) []byte {
-	b, err := yaml.Marshal(v)
-	vAssert(err == nil, "marshal")
-	return b
-}
-
-func vPutRepo(meta *vStore, name string) {
-	meta.putRaw(model.GetArchivePathToRepoDescriptor(name), vYaml(model.RepoDescriptor{Name: name, Description: "d"}))
-}
-
-func vPutBundle(meta *vStore, repo, id string, nIdx int, withDescriptor bool) {
-	for i := 0; i < nIdx; i++ {
-		meta.putRaw(model.GetArchivePathToBundleFileList(repo, id, uint64(i)), vYaml(model.BundleEntries{}))
-	}
-	if withDescriptor {
-		meta.putRaw(model.GetArchivePathToBundle(repo, id), vYaml(model.BundleDescriptor{ID: id, LeafSize: 64, BundleEntriesFileCount: uint64(nIdx)}))
-	}
-}
 
 func vListOpts() []Option {
 	return nil
